@@ -211,6 +211,10 @@ def pow_(a, b):
         for _ in range(b):
             r = mul(r, a)
         return r
+    if not is_sym(a) and is_sym(b) and a > 0:
+        # a ** b with a symbolic exponent: an uninterpreted function of the exponent (contracts supply the facts they need)
+        f = z3.Function('pow_%s' % str(a).replace('/', '_').replace('.', '_'), z3.RealSort(), z3.RealSort())
+        return f(to_z3(to_real(b)))
     raise Unsupported("symbolic exponent")
 
 
